@@ -74,16 +74,36 @@ class MultiConstraint(BaseConstraint):
         if other in self._constraints:
             return self
 
+        if "==" not in self.OPERATORS:
+            # single-valued: '== x' either satisfies all our clauses or none
+            if other.operator == "==":
+                return other if self.allows(other) else EmptyConstraint()
+            if other.invert() in self._constraints:
+                # e.g. "'x' in" and "'x' not in"
+                return EmptyConstraint()
+            return self.__class__(*self._constraints, other)
+
         if other.value in (c.value for c in self._constraints):
             # same value but different operator, e.g. '== "linux"' and '!= "linux"'
             return EmptyConstraint()
 
-        if other.operator == "==" and "==" not in self.OPERATORS:
-            return other
-
         return self.__class__(*self._constraints, other)
 
     def union(self, other: BaseConstraint) -> BaseConstraint:
+        if isinstance(other, (MultiConstraint, Constraint)) and any(
+            c.operator in {"in", "not in"}
+            for c in (
+                *self._constraints,
+                *(other.constraints if isinstance(other, MultiConstraint) else [other]),
+            )
+        ):
+            # substring clauses do not simplify against values
+            if other in self._constraints:
+                return other
+            from poetry.core.constraints.generic import UnionConstraint
+
+            return UnionConstraint(self, other)
+
         if isinstance(other, MultiConstraint):
             theirs = set(other.constraints)
             common = [c for c in self.constraints if c in theirs]
